@@ -54,6 +54,7 @@ def _deco(seed, i, rot, heavy):
             ("prop", f"u{i}", f"w{i}"),
             ("iprop", f"i{i}", ["x", f"y{i}"]),
             ("tag", "#", "123"),
+            ("link", f"20{20 + i}"),  # a page whose name is made of digits is still a page
         ]
     return ws
 
